@@ -594,6 +594,8 @@ def error_variants(rnd, env, c):
     mk("unsupported suite", lambda d: d.__setitem__("alg", rnd.choice([0, 2, 3, 255])))
     mk("unsupported AFI", lambda d: (d.__setitem__("nafi", rnd.choice([0, 3, 25, 65535])), d.__setitem__("afi", d["nafi"])))
     mk("count fields differ", lambda d: d.__setitem__("counts", [n, n + rnd.choice([1, 2, 255])]))
+    # ... by a multiple of 256 (the path count is 8 bits wide, the signature count 16)
+    mk("count fields differ by a multiple of 256", lambda d: d.__setitem__("counts", [n, n + rnd.choice([256, 512, 65280])]))
     mk("one signature segment dropped", lambda d: d["sigs"].pop())
     mk("one secure-path segment dropped", lambda d: d["secs"].pop())
     mk("suite + counts", lambda d: (d.__setitem__("alg", 7), d.__setitem__("counts", [n + 1, n])))
